@@ -215,7 +215,8 @@ fn build(s: &Session, order: &[usize]) -> Vec<Built> {
             Req::CalcUncovered => (tool_call(id, "calculate_report", json!({"transactions": "2020-01-01 BUY ZZZ 1 @ 1\n2020-02-01 SELL ZZZ 5 @ 1"})), Some(false), false),
             Req::CalcMissingRate => (tool_call(id, "calculate_report", json!({"transactions": "2020-01-01 BUY ZZZ 1 @ 1 XAU\n2020-02-01 SELL ZZZ 1 @ 1 XAU"})), Some(false), false),
             Req::CalcUnconfiguredYear => (tool_call(id, "calculate_report", json!({"transactions": "1999-01-01 BUY ZZZ 9 @ 1\n1999-02-01 SELL ZZZ 1 @ 2\n2001-02-01 SELL ZZZ 1 @ 2\n2003-02-01 SELL ZZZ 1 @ 2\n2005-02-01 SELL ZZZ 1 @ 2\n2007-02-01 SELL ZZZ 1 @ 2\n2009-02-01 SELL ZZZ 1 @ 2"})), Some(false), false),
-            Req::CalcEmpty => (tool_call(id, "calculate_report", json!({"transactions": "# nothing"})), Some(false), false),
+            // (whether an empty ledger is refused or answered with an empty report is not stated)
+            Req::CalcEmpty => (tool_call(id, "calculate_report", json!({"transactions": "# nothing"})), None, false),
             Req::Padded(k) => {
                 let text = match k % 3 {
                     0 => format!("\n\n\n{dsl}\n2020-01-02 BOGUS AAA 1 @ 1\n"),
@@ -451,8 +452,10 @@ fn judge(built: &[Built], out: &RunOut, dsl: &str, known_f7: &mut bool, label: &
     if !out.alive_before_eof {
         return Err(Verdict::fail(format!("[{label}] the server exited before its input was closed (exit {:?})\nledger:\n{dsl}", out.exit)));
     }
-    if out.exit != Some(0) {
-        return Err(Verdict::fail(format!("[{label}] server exit status {:?} after stdin closed", out.exit)));
+    if out.exit.is_none() {
+        // had to be killed 30 s after its input was closed: not something the statement speaks
+        // about ("keeps running until its input closes"); cannot be judged here
+        proc::inconclusive(&format!("[{label}] MCP server still running 30 s after stdin was closed"));
     }
     let ids: Vec<i64> = built.iter().filter_map(|b| b.id).collect();
     for (id, v) in &out.got {
